@@ -249,6 +249,7 @@ func runHistory(r *rng.R, id int, wo, wi *bufio.Writer) {
 		stats["op/"+strings.SplitN(op, " ", 2)[0]+"/"+rk]++
 	}
 	var pending []write // writes of the current block
+	ever := map[string][][]byte{} // every key ever written to a store (deleted ones included)
 	apply := func(in *inst, w write) {
 		st := in.ms.GetKVStore(in.keys[w.store])
 		if w.del {
@@ -274,6 +275,16 @@ func runHistory(r *rng.R, id int, wo, wi *bufio.Writer) {
 			apply(A, w)
 			apply(B, w)
 			pending = append(pending, w)
+			if !w.del {
+				ever[w.store] = append(ever[w.store], w.k)
+			} else if ks := ever[w.store]; len(ks) > 0 && r.Bool() {
+				// delete a key that exists (or existed): later queries at the heights where it was present must still find it
+				w2 := write{store: w.store, del: true, k: ks[r.Intn(len(ks))]}
+				apply(A, w2)
+				apply(B, w2)
+				pending = append(pending, w2)
+				emit(fmt.Sprintf("D %s %s", w2.store, hx(w2.k)), "ok")
+			}
 			if w.del {
 				emit(fmt.Sprintf("D %s %s", w.store, hx(w.k)), "ok")
 			} else {
@@ -421,7 +432,9 @@ func runHistory(r *rng.R, id int, wo, wi *bufio.Writer) {
 			cur := A.ms.LastCommitID().Version
 			store := names[r.Intn(ns)]
 			k := randKey(r)
-			if r.Bool() { // a key that is (or was) in the store
+			if ks := ever[store]; len(ks) > 0 && r.Chance(1, 3) { // a key that was written at some point, possibly deleted since
+				k = ks[r.Intn(len(ks))]
+			} else if r.Bool() { // a key that is in the store now
 				it := A.ms.GetKVStore(A.keys[store]).Iterator(nil, nil)
 				var ks [][]byte
 				for ; it.Valid(); it.Next() {
